@@ -56,13 +56,13 @@ TR = ("fragment TR on __Type { kind name ofType { kind name ofType { kind name o
 
 
 def schema_query(incl):
-    b = "true" if incl else "false"
+    b = "null" if incl is None else ("true" if incl else "false")
     return ("query I { __typename __schema { queryType { name } mutationType { name } subscriptionType { name } types { %s } "
             "directives { name description locations args { name description type { ...TR } defaultValue } } } } %s" % (TYPE_SEL % (b, b), TR))
 
 
 def type_query(names, incl):
-    b = "true" if incl else "false"
+    b = "null" if incl is None else ("true" if incl else "false")
     parts = ["t%d: __type(name: \"%s\") { %s }" % (i, n, TYPE_SEL % (b, b)) for i, n in enumerate(names)]
     return "query T { %s } %s" % (" ".join(parts), TR)
 
@@ -309,7 +309,9 @@ def run_one(seed, preset=None, tier="quick", want_case=False):
                        "fragment R on __Type { ...L ofType { ...L ofType { ...L ofType { ...L ofType { ...L ofType { ...L } } } } } } "
                        "fragment L on __Type { kind name enumValues(includeDeprecated: true) { name } inputFields { name } }")
         queries = [("arg_types", ARG_TYPES_Q), ("meta_typenames", META_Q), ("schema_all", schema_query(True)), ("schema_nodep", schema_query(False)),
-                   ("types_all", type_query(type_names, True)), ("types_nodep", type_query(type_names, False))]
+                   ("types_all", type_query(type_names, True)), ("types_nodep", type_query(type_names, False)),
+                   # `includeDeprecated: null`: only `true` adds the deprecated members
+                   ("schema_nulldep", schema_query(None)), ("types_nulldep", type_query(type_names, None))]
 
         async def build(mode, name):
             for d in schema.directives:
@@ -431,7 +433,8 @@ def run_one(seed, preset=None, tier="quick", want_case=False):
                         viol.append(V("hidden_schema_introspected", "[%s] schema marked @nonIntrospectable answered %s: %r" % (
                             mode, label, repr(resp)[:300])))
                 continue
-            for incl, slabel, tlabel in ((True, "schema_all", "types_all"), (False, "schema_nodep", "types_nodep")):
+            for incl, slabel, tlabel in ((True, "schema_all", "types_all"), (False, "schema_nodep", "types_nodep"),
+                                         (False, "schema_nulldep", "types_nulldep")):
                 resp = results[(mode, slabel)]
                 if resp.get("errors") or not resp.get("data"):
                     viol.append(V("introspection_failed", "[%s] %s: %r" % (mode, slabel, repr(resp.get("errors"))[:400])))
